@@ -85,7 +85,7 @@ def coq_type(t):
         if t[0] == 'dict':
             return 'list (%s * %s)' % (coq_type(t[1]), coq_type(t[2]))
         if t[0] == 'ddl':
-            return 'list (%s * list (%s))' % (coq_type(t[1]), coq_type(t[2]))
+            return 'ddl (%s)' % coq_type(t[2])
         if t[0] == 'tuple':
             return '(%s)' % ' * '.join(coq_type(x) for x in t[1:])
     raise Unsupported('no Coq type for %r' % (t,))
@@ -168,7 +168,8 @@ def assigned_names(stmts):
             for x in t.elts:
                 target(x)
         elif isinstance(t, ast.Subscript):
-            add(root_name(t.value))
+            st = store_target(t)
+            add(st + '$g' if st else root_name(t.value))
         else:
             raise Unsupported('assignment target %s' % ast.dump(t))
 
@@ -212,6 +213,15 @@ def assigned_names(stmts):
     return out
 
 
+def store_target(t):
+    """X for the target `X.nodes[n]['graph']` (the graph-valued node attribute), else None"""
+    if isinstance(t, ast.Subscript) and isinstance(t.slice, ast.Constant) and t.slice.value == 'graph' \
+            and isinstance(t.value, ast.Subscript) and isinstance(t.value.value, ast.Attribute) \
+            and t.value.value.attr == 'nodes' and isinstance(t.value.value.value, ast.Name):
+        return t.value.value.value.id
+    return None
+
+
 def root_name(e):
     """the variable a subscript/attribute chain hangs on: G.nodes[n]['x'] -> G"""
     while True:
@@ -247,12 +257,31 @@ def mutated_by_call(e):
 class Tr:
     """translate one function"""
 
-    def __init__(self, fn, argtypes, fixed_none=()):
+    def __init__(self, fn, argtypes, fixed_none=(), stores=()):
         self.fn = fn
         self.argtypes = argtypes
         self.fixed_none = set(fixed_none)
+        self.stores = list(stores)      # graph parameters whose nodes carry a graph-valued 'graph' attribute
         self.names = {}
         self.tmp = 0
+        # names that are iterated / measured somewhere in the function (a defaultdict that is may not be
+        # read by subscript: the read inserts the missing key)
+        self.iterated = set()
+        for n in ast.walk(fn):
+            if isinstance(n, ast.Call) and isinstance(n.func, ast.Attribute) and n.func.attr in ('items', 'keys', 'values') \
+                    and isinstance(n.func.value, ast.Name):
+                self.iterated.add(n.func.value.id)
+            if isinstance(n, (ast.For, ast.comprehension)) and isinstance(n.iter, ast.Name):
+                self.iterated.add(n.iter.id)
+            if isinstance(n, ast.Call) and isinstance(n.func, ast.Name) and n.func.id in ('len', 'list', 'sorted', 'bool') \
+                    and n.args and isinstance(n.args[0], ast.Name):
+                self.iterated.add(n.args[0].id)
+            if isinstance(n, (ast.If, ast.While)) and isinstance(n.test, ast.Name):
+                self.iterated.add(n.test.id)
+        self.loads = {}
+        for n in ast.walk(fn):
+            if isinstance(n, ast.Name) and isinstance(n.ctx, ast.Load):
+                self.loads[n.id] = self.loads.get(n.id, 0) + 1
 
     # ---------------------------------------------------------------- names
     def coq_name(self, py):
@@ -442,10 +471,12 @@ class Tr:
                 return tv[2], self.bindf(pre, 'zd_getitem %s %s' % (v, k))
             if tk == 'pyval':
                 return tv[2], self.bindf(pre, 'zd_getitem_pv %s %s' % (v, k))
-        if isinstance(tv, tuple) and tv[0] == 'ddl' and tv[1] == 'int' and tk == 'int':
-            # defaultdict(list)[k] as an r-value; the insertion of the missing key is not observable
-            # unless the dict is iterated afterwards, which `ddl_read_ok` in stmt() rules out
-            return ('list', tv[2]), '(ddl_get %s %s)' % (v, k)
+        if isinstance(tv, tuple) and tv[0] == 'ddl' and tk in ('int', 'pyval'):
+            # defaultdict(list)[k] as an r-value inserts the missing key; that is not observable as long as
+            # the dict is never iterated or measured in this function
+            if not isinstance(e.value, ast.Name) or e.value.id in self.iterated:
+                raise Unsupported('read of a defaultdict that is iterated in the same function: %s' % ast.unparse(e))
+            return ('list', tv[2]), '(ddl_get %s %s)' % (v, to_pyval(tk, k))
         if isinstance(tv, tuple) and tv[0] == 'list' and tk == 'int' and ci == 0:
             return tv[1], self.bindf(pre, 'py_list_head %s' % v)
         raise Unsupported('subscript %s (%r by %r)' % (ast.unparse(e), tv, tk))
@@ -723,6 +754,9 @@ class Tr:
                 # `a = b` of a mutable object makes two names of ONE object: not handled, unless immutable
                 if t in ('graph',) or t in EMPTY or (isinstance(t, tuple) and t[0] in ('list', 'dict', 'set', 'ddl')):
                     raise Unsupported('alias of a mutable object: %s = %s' % (target.id, value.id))
+            if isinstance(value, ast.Call) and ast.unparse(value.func) == 'itertools.combinations' \
+                    and self.loads.get(target.id, 0) != 1:
+                raise Unsupported('the iterator %s is used more than once' % target.id)
             return self.assign_name(target.id, t, v, env1, k, pre, borrowed=self.is_borrow(value))
         if isinstance(target, ast.Tuple):
             raise Unsupported('tuple assignment outside a loop header')
@@ -745,16 +779,24 @@ class Tr:
         if isinstance(base, ast.Subscript) and isinstance(base.value, ast.Attribute) and base.value.attr == 'nodes' \
                 and isinstance(base.value.value, ast.Name):
             gname = base.value.value.id
-            self.check_mutable(env, gname)
-            if env[gname].type != 'graph':
+            if gname not in env or env[gname].type != 'graph':
                 raise Unsupported('%s is not a graph' % gname)
             tv, v = self.expr(value, env, pre)        # Python evaluates the right-hand side first
+            if tv != 'graph':
+                self.check_mutable(env, gname)
             tn, n = self.expr(base.slice, env, pre)
             tk, kk = self.expr(target.slice, env, pre)
             if tn != 'int' or tk != 'str':
                 raise Unsupported('G.nodes[%r][%r] = ...' % (tn, tk))
             if tv == 'graph':
-                raise Unsupported('a graph stored as a node attribute (handled only through the fgraphs pattern)')
+                if not (gname in self.stores and isinstance(target.slice, ast.Constant) and target.slice.value == 'graph'):
+                    raise Unsupported('a graph stored as a node attribute other than X.nodes[n][\'graph\']')
+                self.mark_escaped(value, env)
+                st = gname + '$g'
+                return self.rebind(st, 'nx_set_node_graph %s %s %s %s' % (env[gname].coq, env[st].coq, n, v),
+                                   env, k, pre, fallible=True)
+            if isinstance(target.slice, ast.Constant) and target.slice.value == 'graph':
+                raise Unsupported('the graph-valued attribute is assigned something that is not a graph')
             self.mark_escaped(value, env)
             return self.rebind(gname, 'nx_set_node_item %s %s %s %s' % (env[gname].coq, n, kk, to_pyval(tv, v)),
                                env, k, pre, fallible=True)
@@ -796,11 +838,11 @@ class Tr:
             var = env[py]
             tk, kk = self.expr(s.target.slice, env, pre)
             tv, v = self.expr(s.value, env, pre)
-            if tk == 'int' and isinstance(tv, tuple) and tv[0] == 'list' and \
+            if tk in ('int', 'pyval') and isinstance(tv, tuple) and tv[0] == 'list' and \
                     (var.type == 'empty_ddl' or (isinstance(var.type, tuple) and var.type[0] == 'ddl'
-                                                 and var.type[1:] == ('int', tv[1]))):
-                return self.rebind(py, 'ddl_extend %s %s %s' % (var.coq, kk, v), env, k, pre,
-                                   newtype=('ddl', 'int', tv[1]))
+                                                 and var.type[2] == tv[1])):
+                return self.rebind(py, 'ddl_extend %s %s %s' % (var.coq, to_pyval(tk, kk), v), env, k, pre,
+                                   newtype=('ddl', 'pyval', tv[1]), fallible=True)
         raise Unsupported('augmented assignment %s' % ast.unparse(s))
 
     def expr_stmt(self, e, env, k):
@@ -847,12 +889,9 @@ class Tr:
                     tk, kk = self.expr(recv.slice, env, pre)
                     if var.type == 'empty_ddl' or (isinstance(var.type, tuple) and var.type[0] == 'ddl'
                                                    and var.type[2] == tv):
-                        if tk == 'int':
-                            return self.rebind(py, 'ddl_append %s %s %s' % (var.coq, kk, v), env, k, pre,
-                                               newtype=('ddl', 'int', tv))
-                        if tk == 'pyval':
-                            return self.rebind(py, 'ddl_append_pv %s %s %s' % (var.coq, kk, v), env, k, pre,
-                                               newtype=('ddl', 'int', tv), fallible=True)
+                        if tk in ('int', 'pyval'):
+                            return self.rebind(py, 'ddl_append %s %s %s' % (var.coq, to_pyval(tk, kk), v), env, k, pre,
+                                               newtype=('ddl', 'pyval', tv), fallible=True)
             if m == 'add' and len(e.args) == 1 and not e.keywords and isinstance(recv, ast.Name):
                 self.check_mutable(env, recv.id)
                 var = env[recv.id]
@@ -995,7 +1034,12 @@ class Tr:
         if set(params) != set(self.argtypes):
             raise Unsupported('parameters of %s changed: %s' % (fn.name, params))
         mutated = assigned_names(fn.body)
-        self.mutated_params = [p for p in params if p in mutated and self.argtypes[p] == 'graph']
+        self.mutated_params = []
+        for p in params:
+            if p in mutated and self.argtypes[p] == 'graph':
+                self.mutated_params.append(p)
+            if p in self.stores and p + '$g' in mutated:
+                self.mutated_params.append(p + '$g')
         for p in params:
             if p in mutated and p not in self.mutated_params and p not in self.fixed_none:
                 raise Unsupported('parameter %s is re-bound' % p)
@@ -1008,13 +1052,17 @@ class Tr:
             if p in self.fixed_none:
                 continue
             binders.append('(%s : %s)' % (n, coq_type(t)))
+            if p in self.stores:
+                n2 = self.coq_name(p + '$g')
+                env[p + '$g'] = Var(n2, 'fgraphs')
+                binders.append('(%s : fgraphs)' % n2)
         self.ret_type = None
 
         def end(env2):
             # falling off the end: return None
             return self.ret(None, env2)
         body = self.block(fn.body, env, end)
-        rts = [coq_type('graph') for _ in self.mutated_params]
+        rts = [coq_type(env[p].type) for p in self.mutated_params]
         if self.ret_type != 'none' or not rts:
             rts.append(coq_type(self.ret_type))
         return 'Definition %s %s : res (%s) :=\n  %s.\n' % (name, ' '.join(binders), ' * '.join(rts), body)
@@ -1058,6 +1106,12 @@ def gen_merge(t):
     return tr.translate('gen_merge_graphs')
 
 
+def gen_annotate(t):
+    fn = py2v.find_function(t, 'annotate_fragments')
+    tr = Tr(fn, {'meta_graph': 'graph', 'molecule': 'graph'}, stores=['meta_graph'])
+    return tr.translate('gen_annotate_fragments')
+
+
 PREAMBLE = ('From Coq Require Import Lia.\n'
             'From CGV Require Import Base.NxGraph Resolve.GraphOps Resolve.SourcePrims.\n'
             'Open Scope Z_scope.\n\n')
@@ -1069,4 +1123,5 @@ def gen_graphutils(trees):
     out = PREAMBLE
     out += gen_sort(t)
     out += '\n' + gen_merge(t)
+    out += '\n' + gen_annotate(t)
     return out
